@@ -127,3 +127,12 @@ fn(CF + ".quic_bind.setter", params={"value": "str | strs"}, modifies=["self._qu
    ensures=[("C19.setters.quic_bind", "(len(self._quic_bind) == 1 and self._quic_bind[0] == value) if isinstance(value, str) else self._quic_bind == value", "C19")], props=("C19",))
 fn(CF + ".root_path.setter", params={"value": "str"}, modifies=["self._root_path"], effect="atomic",
    ensures=[("C19.setters.root_path", "not self._root_path.endswith('/') and starts_with(value, self._root_path)", "C19")], props=("C19",))
+
+
+# C19 "the server/alt-svc values the configuration asks for": the QUIC addresses advertised through
+# alt-svc are those of this configuration's own sockets -- the list is started afresh on every call
+# (the attribute's class-level default is a list shared by every Config)
+fn(CF + "._set_quic_addresses", params={"sockets": "obj pyvc:ObjList"}, modifies=["self._quic_addresses"],
+   loops={0: {"locals": {"sock": "obj io:ListenSocket", "name": "opaque"}}},
+   ensures=[("C19.quic.own-list", "not same(self._quic_addresses, old(self._quic_addresses))", "C19")],
+   props=("C19",))
